@@ -297,7 +297,7 @@ def run(ctx):
     parallel(ctx, run_move_enum, [{'ns': [0, 1, 2]}, {'ns': [3]}, {'ns': [4]}])
     run_get_enum(ctx)
     if ctx.thorough:
-        parallel(ctx, shard, [{'n': 500} for _ in range(16)])
+        parallel(ctx, shard, [{'n': 1500} for _ in range(16)])
     else:
         parallel(ctx, shard, [{'n': 40} for _ in range(8)])
 
